@@ -20,10 +20,23 @@
 from ...BoundaryCondition.CConversionBoundaryCondition import CConversionBoundaryCondition
 
 
-def writeT4BoundCond(dic_surf_mcnp, ofile):
-    '''Method writing GeomComp to the T4 input file.'''
-    d_boundCond = CConversionBoundaryCondition(
+def writeT4BoundCond(dic_surf_mcnp, ofile, renumbering=None, surf_used=None):
+    '''Method writing GeomComp to the T4 input file.
+
+    Boundary conditions must designate surfaces of the TRIPOLI-4 geometry: if
+    given, `renumbering` maps the surface IDs to the IDs that replaced them
+    when duplicate surfaces were removed, and `surf_used` is the set of
+    surface IDs that are actually written.'''
+    d_boundCondMCNP = CConversionBoundaryCondition(
         dic_surf_mcnp).conversionBoundCond()
+    d_boundCond = {}
+    for key, bound_cond in d_boundCondMCNP.items():
+        if renumbering:
+            key = renumbering.get(key, key)
+        if surf_used is not None and key not in surf_used:
+            # the surface does not bound any converted cell
+            continue
+        d_boundCond.setdefault(key, bound_cond)
     if not d_boundCond:
         return
     ofile.write("\nBOUNDARY_CONDITION\n")
